@@ -1,0 +1,24 @@
+//go:build verif
+
+// Contracts for package replace (comment-only; see /verif/DESIGN.md).
+
+package replace
+
+// The rewrite primitives navigate the document through jsonpointer (reflection). For the callers in package
+// analysis they are summarised by what they may write: document objects only.
+
+//@ func UpdateRef(sp, key, ref)
+//@   assumed
+//@   modifies heaps DOC
+
+//@ func UpdateRefWithSchema(sp, key, sch)
+//@   assumed
+//@   modifies heaps DOC
+
+//@ func RewriteSchemaToRef(sp, key, ref)
+//@   assumed
+//@   modifies heaps DOC
+
+//@ func DeepestRef(sp, opts, ref)
+//@   assumed
+//@   modifies nothing
